@@ -424,13 +424,19 @@ class FileUploadHandler(UploadHandler):
             # place: a failure part-way (disk full, I/O error) must not leave a
             # truncated file behind or damage an existing one
             tmp_path = target.with_name(f".{target.name}.{secrets.token_hex(8)}.tmp")
+            tmp_created = False
             try:
                 with open(tmp_path, "xb") as tmp_file:
+                    tmp_created = True
                     tmp_file.write(request.content)
                 os.replace(tmp_path, target)
             except BaseException:
-                with contextlib.suppress(OSError):
-                    tmp_path.unlink()
+                # Remove only what this upload created: if a file with the
+                # temporary name already existed, open() refused it ("x") and
+                # it is not ours to delete
+                if tmp_created:
+                    with contextlib.suppress(OSError):
+                        tmp_path.unlink()
                 raise
 
             return GeminiResponse(
